@@ -162,6 +162,20 @@ impl CQueueLLAllocatorInner {
         let size = layout.size().max(size_of::<ListNode>());
         (size, layout.align())
     }
+
+    /// Size and alignment of the block that serves the given layout.
+    ///
+    /// A block that would leave a page tail too small to hold a `ListNode`
+    /// takes the whole page: no region, not even a fresh page, could be
+    /// split that way, so the search for a region would never end.
+    fn block_size_align(&self, layout: Layout) -> (usize, usize) {
+        let (size, align) = Self::size_align(layout);
+        if size < self.page_size && self.page_size - size < size_of::<ListNode>() {
+            (self.page_size, align)
+        } else {
+            (size, align)
+        }
+    }
 }
 
 impl Drop for CQueueLLAllocatorInner {
@@ -192,8 +206,8 @@ pub struct CQueueLLAllocator {
 
 impl CQueueLLAllocator {
     pub fn allocate(&mut self, layout: std::alloc::Layout) -> Result<*mut u8, ()> {
-        let (size, align) = CQueueLLAllocatorInner::size_align(layout);
         let allocator = unsafe { &mut *self.inner };
+        let (size, align) = allocator.block_size_align(layout);
 
         if size > allocator.page_size {
             return Err(());
@@ -226,8 +240,8 @@ impl CQueueLLAllocator {
     }
 
     pub unsafe fn deallocate(&mut self, ptr: NonNull<u8>, layout: Layout) {
-        let (size, _) = CQueueLLAllocatorInner::size_align(layout);
         let allocator = unsafe { &mut *self.inner };
+        let (size, _) = allocator.block_size_align(layout);
         #[cfg(petrichorit_des_verif)]
         verif_emit(VerifAllocEvent::Deallocated {
             addr: ptr.as_ptr() as usize,
